@@ -156,8 +156,12 @@ ChooseRequest ==
   /\ LET et == IF d.type = "array" THEN d.itype ELSE d.type
          ef == IF d.type = "array" THEN d.iformat ELSE d.format
          good == GoodText(et, ef)
-         texts == IF d.type = "array" THEN ArrayTexts ELSE IF d.type = "file" THEN {<<104, 105>>} ELSE TextsFor(d.type, d.format)
          few   == {good, BadText(et, ef), <<>>}
+         \* declarations with a zero-valued / large default differ from the others only in what absent and empty requests yield
+         plainDefault == ~d.hasdef \/ d.def \in {<<good>>, <<good, good>>}
+         texts == IF d.type = "file" THEN {<<104, 105>>}
+                  ELSE IF ~plainDefault THEN few \cup (IF d.type = "array" THEN {<<SepOf(d.cf)>>} ELSE {})
+                  ELSE IF d.type = "array" THEN ArrayTexts ELSE TextsFor(d.type, d.format)
          keys  == IF d.in = "header" THEN HdrNames ELSE {d.name}
          other == IF d.in = "header" THEN {HdrOther} ELSE QueryOtherKeys
      IN IF d.in = "path"
